@@ -52,7 +52,20 @@ C06_NoStuck(api, now, maxc) ==
 \* ---- C07 ----
 C07_NotEarly(api) == \A j \in DOMAIN api : Started(api[j]) => api[j].st >= api[j].sa
 C07_NotEarlyStep(api, apiN, nowN) == \A j \in DOMAIN api : StartsNow(api, apiN, j) => (nowN >= api[j].sa /\ apiN[j].st <= nowN)
+\* the concurrency policy is applied once the Job is due: a refusal is never written for a Job whose startAfter is still ahead
+C07_RefusedOnlyWhenDueStep(api, apiN, nowN) == \A j \in DOMAIN api : (api[j].ex /\ ~api[j].adm /\ apiN[j].adm) => nowN >= apiN[j].sa
 C07_IndependentStarts(api, now) == \A j \in DOMAIN api : (Queued(api[j]) /\ api[j].jc = 0 /\ ~api[j].adm) => api[j].sa > now
+
+\* ---- C15: JobConfig status (jobconfigcontroller) ----
+\* jc = [active, queued (sets of Job ids), nactive, nqueued, lastSch, lastExe, state]
+IdsOf(api, c, P(_)) == {j \in DOMAIN api : api[j].jc = c /\ P(api[j])}
+C15_Exact(api, c, jc, ids(_)) ==
+    /\ ids(jc.active) = IdsOf(api, c, Active)
+    /\ ids(jc.queued) = IdsOf(api, c, Queued)
+    /\ jc.nactive = Cardinality(IdsOf(api, c, Active))
+    /\ jc.nqueued = Cardinality(IdsOf(api, c, Queued))
+    /\ jc.state = (IF jc.nactive > 0 THEN "Executing" ELSE IF jc.nqueued > 0 THEN "JobQueued" ELSE "Ready")
+C15_MonotoneStep(jc, jcN) == jcN.lastSch >= jc.lastSch /\ jcN.lastExe >= jc.lastExe
 
 \* ---- C11 (queue-controller part): startTime, once set, never changes ----
 C11_StartTimeStable(api, apiN) == \A j \in DOMAIN api : (Started(api[j]) /\ apiN[j].ex) => apiN[j].st = api[j].st
